@@ -600,6 +600,8 @@ const BigIntWordSize = int(unsafe.Sizeof(big.Word(0)))
 
 var bigIntWordSizeAsBig = big.NewInt(int64(BigIntWordSize))
 
+var bigIntWordBitSizeAsBig = big.NewInt(int64(BigIntWordSize * 8))
+
 func BigIntByteLength(v *big.Int) int {
 	// NOTE: big.Int.Bits() actually returns a slice of words,
 	// []big.Word, where big.Word = uint,
@@ -821,13 +823,15 @@ func NewBitwiseRightShiftBigIntMemoryUsage(a, b *big.Int) MemoryUsage {
 			resultWordLength = aWordLength + 4
 		} else {
 			// TODO: meter the allocation of the metering itself
-			shiftByteLengthBig := new(big.Int).Div(b, bigIntWordSizeAsBig)
+			// NOTE: the shift is given in bits, so the number of words
+			// removed from the result is b / word_size_in_bits
+			shiftWordLengthBig := new(big.Int).Div(b, bigIntWordBitSizeAsBig)
 			// TODO: handle big int shifts
-			if !shiftByteLengthBig.IsInt64() {
+			if !shiftWordLengthBig.IsInt64() {
 				panic(invalidLeftShift)
 			}
-			shiftByteLength := int(shiftByteLengthBig.Int64())
-			resultWordLength = aWordLength - shiftByteLength + 4
+			shiftWordLength := int(shiftWordLengthBig.Int64())
+			resultWordLength = max(aWordLength-shiftWordLength, 0) + 4
 		}
 	} else {
 		resultWordLength = aWordLength + 4
